@@ -16,6 +16,12 @@ answer() { echo "% Refutation found."; echo "% SZS status $1 for anthem_problem"
 case "$FAKE_MODE" in
   theorem) answer Theorem ;;
   none) echo "% no status today" ;;
+  silent) exit 0 ;;
+  silent1) exit 1 ;;
+  blank) printf '  \n\n'; printf '\n' >&2 ;;
+  killed) kill -9 $$ ;;
+  stderronly) echo "% SZS status Theorem for anthem_problem" >&2 ;;
+  silentunless:*) if grep -q "${FAKE_MODE#silentunless:}" "$f"; then answer Theorem; fi ;;
   crash) echo "Segmentation fault" >&2; exit 139 ;;
   multi:*) IFS=, read -ra ws <<< "${FAKE_MODE#multi:}"; for w in "${ws[@]}"; do echo "% SZS status $w for anthem_problem"; done ;;
   garbage) printf '\377\376\375 not utf-8\n' ;;
@@ -65,6 +71,7 @@ pub fn check(deep: bool, st: &mut PStats, fails: &mut Vec<Failure>) {
     // (mode, every answer is Theorem)
     let mut modes: Vec<(String, bool)> = vec![
         ("theorem".into(), true), ("none".into(), false), ("crash".into(), false), ("slowfirst".into(), true), ("garbage".into(), false), ("garbageunless:, conjecture, ~".into(), false), ("garbageunless:_0_".into(), false),
+        ("silent".into(), false), ("silent1".into(), false), ("blank".into(), false), ("killed".into(), false), ("stderronly".into(), false), ("silentunless:_0_".into(), false),
         ("unless:conjecture=CounterSatisfiable".into(), false), ("unless:nothing_matches_this=Timeout".into(), true),
     ];
     for s in ["CounterSatisfiable", "ContradictoryAxioms", "Satisfiable", "Timeout", "MemoryOut", "GaveUp", "Unknown", "Error", "EquivalentTheorem", "WeakerTheorem", "NoTheorem", "Theorem_", "theorem", "Unsatisfiable", "CounterTheorem", "User", "ResourceOut", "Inappropriate", "TheoremX"] {
@@ -77,7 +84,7 @@ pub fn check(deep: bool, st: &mut PStats, fails: &mut Vec<Failure>) {
     for (ti, (flags, files)) in tasks.iter().enumerate() {
         if !deep && ti % 2 == 1 && false { continue; }
         for (mi, (mode, all_theorem)) in modes.iter().enumerate() {
-            if !deep && mi >= 8 && (mi + ti) % 4 != 0 { continue; }
+            if !deep && mi >= 14 && (mi + ti) % 4 != 0 { continue; }
             for n in if deep { vec!["1", "3", "8"] } else { vec![["1", "3"][(mi + ti) % 2]] } {
                 st.runs += 1;
                 let what = format!("anthem verify {} -n {n} with a prover that answers `{mode}`: {}", flags.join(" "), files.iter().map(|(f, t)| format!("{f}=`{t}`")).collect::<Vec<_>>().join(" "));
@@ -87,6 +94,7 @@ pub fn check(deep: bool, st: &mut PStats, fails: &mut Vec<Failure>) {
                 // `unless:_1,=` depends on the formula names; whether it hit is read off the saved problems
                 let expect_success = if mode.starts_with("unless:") { let pat = mode["unless:".len()..].split('=').next().unwrap(); !saved.values().any(|t| t.contains(pat)) }
                     else if mode.starts_with("garbageunless:") { let pat = &mode["garbageunless:".len()..]; saved.values().all(|t| t.contains(pat)) }
+                    else if mode.starts_with("silentunless:") { let pat = &mode["silentunless:".len()..]; saved.values().all(|t| t.contains(pat)) }
                     else { *all_theorem };
                 let mut want: Vec<String> = saved.values().cloned().collect();
                 want.sort(); received.sort();
